@@ -168,6 +168,12 @@ struct Obj {
   Node *body;
   Obj *locals;
   Obj *va_area;
+
+  // Registers and stack bytes taken by the named parameters: where
+  // va_start finds the first unnamed argument.
+  int named_gp;
+  int named_fp;
+  int named_stack_top;
   Obj *alloca_bottom;
   int stack_size;
 
